@@ -527,7 +527,18 @@ pub fn c15(ctx: &CheckCtx) -> i32 {
 /// One digest per case over (compile result, rows, adapter call trace). Pure function of `bytes`.
 pub fn c14_digest(bytes: &[u8], cfg: &GenConfig) -> (u64, bool, String) {
     let mut c = Choices::new(bytes);
-    let kind = c.below(4);
+    let kind = c.below(5);
+    // kind 4: worlds biased towards regex filters with tag operands (patterns compiled at run time, per value; the data
+    // pool contains an invalid pattern): the place where a cache would make results depend on what ran before
+    let regex_cfg;
+    let cfg = if kind == 4 {
+        let mut r = cfg.clone();
+        r.query.regex_bias = true;
+        regex_cfg = r;
+        &regex_cfg
+    } else {
+        cfg
+    };
     if kind == 0 {
         // possibly-invalid documents: error determinism
         let case = decode_hostile(&mut c);
@@ -622,6 +633,77 @@ pub fn c14_inprocess_case(bytes: &[u8], stats: &mut Stats, counting: bool, cfg: 
             };
         }
     }
+    c14_alternating_schemas(bytes, stats, counting, cfg)
+}
+
+/// "The same query against the same schema" must not depend on which other schema was compiled against in between: the
+/// query is compiled against schema A and against a variant B (every non-list `Int` property turned into `Float`, which
+/// keeps the schema valid and usually changes the IR or the error), first with both alive, then alternately with each
+/// schema parsed into the *same* local variable and dropped again, so that A and B take turns at one address.
+fn c14_alternating_schemas(bytes: &[u8], stats: &mut Stats, counting: bool, cfg: &GenConfig) -> Verdict {
+    let mut c = Choices::new(bytes);
+    if c.below(5) < 2 {
+        return Verdict::Pass; // only world cases have a schema AST to vary
+    }
+    let case = decode_world_case(&mut c, cfg);
+    let mut doc_b = case.world.schema.clone();
+    for t in doc_b.types.iter_mut() {
+        for f in t.fields.iter_mut() {
+            if f.ty.base == "Int" && !f.ty.is_list() && f.params.is_empty() {
+                f.ty.base = "Float".into();
+            }
+        }
+    }
+    let texts = [case.sdl.clone(), doc_b.render()];
+    let compile_text = |sdl: &str| -> String {
+        // (one local: every call parses into the same stack slot)
+        let schema = match engine::parse_schema(sdl) {
+            Ok(Ok(s)) => s,
+            other => return format!("schema: {other:?}"),
+        };
+        match engine::compile(&schema, &case.query_text) {
+            CompileOutcome::Ok(iq) => ron::to_string(&iq.ir_query).unwrap_or_default(),
+            CompileOutcome::Err(e) => format!("err: {e}"),
+            CompileOutcome::Panic(p) => format!("panic: {}", p.message),
+        }
+    };
+    // references: both schemas alive at the same time (different addresses)
+    let (ref_a, ref_b) = {
+        let a = engine::parse_schema(&texts[0]);
+        let b = engine::parse_schema(&texts[1]);
+        let of = |s: &Result<Result<trustfall_core::schema::Schema, String>, engine::PanicInfo>| match s {
+            Ok(Ok(schema)) => match engine::compile(schema, &case.query_text) {
+                CompileOutcome::Ok(iq) => ron::to_string(&iq.ir_query).unwrap_or_default(),
+                CompileOutcome::Err(e) => format!("err: {e}"),
+                CompileOutcome::Panic(p) => format!("panic: {}", p.message),
+            },
+            other => format!("schema: {other:?}"),
+        };
+        (of(&a), of(&b))
+    };
+    if ref_b.starts_with("schema:") {
+        return Verdict::HarnessBug(format!("the Int->Float variant of a generated schema is rejected: {ref_b}\n{}", texts[1]));
+    }
+    if counting && ref_a != ref_b {
+        stats.label("alternating_schemas:variant_changes_the_compile_result");
+    }
+    for round in 0..3 {
+        for (which, want) in [(0usize, &ref_a), (1usize, &ref_b)] {
+            let got = compile_text(&texts[which]);
+            if &got != want {
+                return Verdict::Fail {
+                    sig: "c14:compile-result-depends-on-schemas-compiled-before".into(),
+                    msg: format!(
+                        "round {round}: compiling against schema {} after the other schema had been compiled against and dropped gave a different result than compiling against it on its own\nquery:\n{}\nschema A:\n{}\nschema B:\n{}",
+                        ["A", "B"][which],
+                        case.query_text,
+                        texts[0],
+                        texts[1]
+                    ),
+                };
+            }
+        }
+    }
     Verdict::Pass
 }
 
@@ -634,7 +716,9 @@ pub fn c14(ctx: &CheckCtx) -> i32 {
         ctx,
         "choice stream -> one of {world (valid query), hostile query text (error results), mutated schema (schema errors)}; \
          digest over (RON of the IR or Debug of the error, rows, recorded adapter call trace). In-process: 8 repetitions, each \
-         re-parsing the schema into a fresh Schema (fresh hash seeds). Cross-process: the same case list is digested by 3 (5) \
+         re-parsing the schema into a fresh Schema (fresh hash seeds), then the query compiled alternately against the schema and an \
+         Int->Float variant of it, each parsed into the same local and dropped (the result must equal the one obtained with both \
+         schemas alive). One fifth of the worlds is biased towards regex filters with tag operands. Cross-process: the same case list is digested by 3 (5) \
          separately spawned processes and compared line by line. Non-trivial: error with several sub-errors, or schema with >= 5 \
          types and a query touching >= 3 vertices; distinct by input text.",
     );
